@@ -17,7 +17,7 @@ TWO64 = 1 << 64
 def scenarios(ctx):
     rng = ctx.rng
     quick = ctx.quick()
-    n = 16 if quick else 120
+    n = 12 if quick else 120
     scn = []
     # every combination of transport x encryption x close mode at least once
     combos = [(net, enc, close) for net in ("tcp", "unix") for enc in (0, 1) for close in ("none", "client", "server")]
@@ -97,7 +97,7 @@ def gen_ops(ctx):
     for s in (TWO63 - 300, TWO64 - 300, rng.randrange(TWO64)):
         ops.append((f"alloc {s} 700", "alloc", s))   # long runs: any short period of the IDs shows up as a repeated ID
     # --- clientConn pending-calls logic
-    for i in range(1200 if quick else 20000):
+    for i in range(1000 if quick else 20000):
         hostile = i % 5 == 0
         ops.append((gen_pc(rng, hostile), "pc-hostile" if hostile else "pc", None))
     for fixed in ["pc s:0:n f:0",                       # response for a call that was not sent yet: Go panics (model: None)
